@@ -19,6 +19,7 @@ verus! {
 //@include spec/sem.rs
 //@include spec/sem_arms.rs
 //@include spec/evalctx_types.rs
+//@include spec/strmap.rs
 //@include spec/evalctx.rs
 //@include spec/sem_laws.rs
 //@fmtfns
